@@ -3,7 +3,7 @@ import re
 
 from lib import machine as mc
 from lib.mir import AnchorMissing
-from . import nf_common, nfq
+from . import mirq, nf_common, nfq
 from .guardlib import gval, comparisons, lt_true, ge_true
 
 MANIFEST = {
@@ -24,7 +24,7 @@ T = "tendril::Tendril<F,A>::"
 
 def _const(ctx, name):
     """value of a scalar constant of tendril.rs, as the normal forms render it (uses are substituted by value)"""
-    for it in ctx.ast.crates["tendril"]:
+    for it in ctx.ast.walkable("tendril"):
         if it["k"] in ("Const", "Static") and it.get("name") == name and it.get("init") is not None:
             e = it["init"]
             while e.get("k") in ("Paren", "Cast"):
@@ -140,7 +140,7 @@ def r12_3(ctx):
     ok = len(na) == 1 and any("Cell<" in f[1] for v in na[0]["variants"] for f in v["fields"])
     ctx.ob("R12.3", "nonatomic-is-not-sync", ok, "NonAtomic wraps a Cell (auto !Sync), so Tendril<_, NonAtomic> is not Send")
     # the where-clause itself (syntax tree)
-    its = [it for it in ctx.ast.crates["tendril"] if it["k"] == "Impl" and (it.get("trait") or "").strip() == "Send" and it["self_ty"].replace(" ", "").startswith("Tendril<")]
+    its = [it for it in ctx.ast.walkable("tendril") if it["k"] == "Impl" and (it.get("trait") or "").strip() == "Send" and it["self_ty"].replace(" ", "").startswith("Tendril<")]
     ok = len(its) == 1 and re.search(r"A\s*:\s*Atomicity\s*\+\s*Sync", its[0]["generics"] + " " + str(its[0].get("where", ""))) is not None
     ctx.ob("R12.3", "tendril-send-requires-sync-atomicity", ok, "unsafe impl Send for Tendril<F, A> is bounded by A: Atomicity + Sync")
     # the tendril itself holds a Cell / raw pointer: auto traits give !Send (NonAtomic) / !Sync; witnesses run in the thorough tier
@@ -166,10 +166,12 @@ def r12_4(ctx):
                 continue
             for prim, allowed in OWN_PRIMS.items():
                 if c["path"] == prim or c["path"].replace("core::", "std::") == prim:
-                    n += 1
-                    ok = any(f.name == nm and sub in f.path for nm, sub in allowed)
-                    ctx.ob("R12.4", "ownership-primitive/%s in %s" % (prim.rsplit("::", 1)[-1], f.path.rsplit("::", 2)[-2] + "::" + f.name if "::" in f.path else f.path), ok,
-                           "reviewed site" if ok else "%s is called outside the reviewed functions: ownership may be duplicated or forgotten" % prim, f.where(bb))
+                    # (a helper extracted since the review uses the primitive on behalf of the reviewed functions that call it)
+                    for g in mirq.reviewed_owner_fns(ctx, f):
+                        n += 1
+                        ok = any(g.name == nm and sub in g.path for nm, sub in allowed)
+                        ctx.ob("R12.4", "ownership-primitive/%s in %s" % (prim.rsplit("::", 1)[-1], g.path.rsplit("::", 2)[-2] + "::" + g.name if "::" in g.path else g.path), ok,
+                               "reviewed site" if ok else "%s is called outside the reviewed functions: ownership may be duplicated or forgotten" % prim, f.where(bb))
     ctx.floor("R12.4", "ownership-primitive-sites", n, 6)
     # by-value transmutes of tendrils keep the layout: source and target are Tendril / SendTendril / &Tendril
     k = 0
